@@ -2,6 +2,7 @@
 goes into the evidence file."""
 import json
 import os
+import subprocess
 
 import driver as D
 
@@ -376,12 +377,74 @@ register(
 )
 
 
+def _c05_slow_shipped(ctx):
+    """Shipped programs whose compilation takes minutes (skipped by the in-process stage): each is compiled in fresh
+    processes started from different values of the fresh-name counter; bytes and symbol entries must be identical.
+    Thorough tier only (quick: two medium-sized files)."""
+    import glob
+    import hashlib
+    from concurrent.futures import ThreadPoolExecutor
+
+    m = D.empty_merge()
+    outdir = os.path.join(ctx["outroot"], "c05slow")
+    os.makedirs(outdir, exist_ok=True)
+    d23 = os.path.join(D.REPO, "resources", "tests", "game-referee-in-cl23")
+    d21 = os.path.join(D.REPO, "resources", "tests", "game-referee-in-cl21")
+    if ctx["thorough"]:
+        files = sorted(glob.glob(os.path.join(d23, "test_*.clsp")) + glob.glob(os.path.join(d23, "smoke_*.clsp")) + glob.glob(os.path.join(d21, "test_hand*.clsp")))
+        counters = [0, 95, 99990]
+    else:
+        files = [os.path.join(d23, "test_prepend.clsp"), os.path.join(d23, "test_range.clsp"), os.path.join(d23, "smoke_test_sort.clsp")]
+        counters = [0, 95]
+    files = [f for f in files if os.path.exists(f)]
+    jobs = [(f, c) for f in files for c in counters]
+
+    def one(job):
+        f, c = job
+        env = dict(D.ENV)
+        env["VH_C05_CTR"] = str(c)
+        try:
+            p = subprocess.run([D.VH, "c05-child", f, f, "1", os.path.dirname(f)], env=env, cwd=outdir, stdout=subprocess.PIPE, stderr=subprocess.PIPE, text=True, timeout=1500)
+            return job, json.loads(p.stdout)
+        except Exception as e:  # timeout / no output: inconclusive, never a verdict
+            return job, {"harness": str(e)[:200]}
+
+    with ThreadPoolExecutor(max_workers=D.NCPU) as ex:
+        res = list(ex.map(one, jobs))
+    by = {}
+    for (f, c), r in res:
+        by.setdefault(f, []).append((c, r))
+    for f, obs in by.items():
+        m["counters"]["evaluations"] = m["counters"].get("evaluations", 0) + len(obs)
+        if any("harness" in r for _, r in obs):
+            m["inconclusive"].append({"kind": "slow_shipped_child_failed", "case": os.path.relpath(f, D.REPO)})
+            m["counters"]["inconclusive.slow_shipped_child_failed"] = m["counters"].get("inconclusive.slow_shipped_child_failed", 0) + 1
+            continue
+        keys = [(r.get("hex"), json.dumps(r.get("symbols"), sort_keys=True)) for _, r in obs]
+        m["counters"]["slow_shipped.files"] = m["counters"].get("slow_shipped.files", 0) + 1
+        if len(set(keys)) > 1:
+            c0, r0 = obs[0]
+            for c1, r1 in obs[1:]:
+                if (r1.get("hex"), json.dumps(r1.get("symbols"), sort_keys=True)) != keys[0]:
+                    s0, s1 = r0.get("symbols") or {}, r1.get("symbols") or {}
+                    diff = [k for k in sorted(set(s0) | set(s1)) if s0.get(k) != s1.get(k)][:4]
+                    m["violations"].append({"kind": "compilation_not_a_pure_function", "engine": "c05", "how": "fresh_process_slow_shipped", "target": "shipped:" + os.path.relpath(f, D.REPO), "counters": [c0, c1],
+                                            "bytes_equal": r0.get("hex") == r1.get("hex"), "symbol_entries": [len(s0), len(s1)], "differing_symbol_keys": diff})
+                    break
+        elif obs[0][1].get("hex"):
+            m["distinct"].add("slow:" + hashlib.sha256(f.encode()).hexdigest()[:12])
+    return m
+
+
+_c05_slow_shipped.__name__ = "c05slow"
+
 register(
     "C05",
-    [vh_stage("c05", 16, 16)],
+    [vh_stage("c05", 16, 16), _c05_slow_shipped],
     "targets: generated programs in every dialect incl. classic plus shipped sources from resources/tests (with their include directories), alternately with and without the optimise flag; each target is compiled "
     "(A) 5 (thorough 12) times in one process after random histories of prior compilations (other programs and dialects, mutated programs that fail, a strict-mode error) and after ARGNAME_CTR was set to one of 14 values (0, 8, 9, 98, 99, ..., 10^k+-1, usize::MAX/2), "
-    "(B) in 2 (5) fresh processes (new hash seeds), (C) by 2..16 concurrent threads; bytes and symbol tables (keys verbatim, generated-name suffixes _$_<n> canonicalised in values) must equal the first observation; after every compilation the thread's integer-conversion mode is probed. "
+    "(B) in 2 (5) fresh processes (new hash seeds), (C) by 2..16 concurrent threads; probe programs built from the shapes the optimiser passes key on (constant calls, several independent repeated subexpressions, inline functions used repeatedly, lets, lambdas, assign) are targets too and their typo twins (an unbound name raised from inside a pass) are part of the histories; "
+    "(D) shipped game-referee programs that take up to minutes to compile, in fresh processes started from counter values 0, 95, 99990 (quick: three smaller files, two counters); bytes and symbol tables (keys verbatim, generated-name suffixes _$_<n> canonicalised in values) must equal the first observation; after every compilation the thread's integer-conversion mode is probed. "
     "Distinct non-trivial = distinct successfully compiled target that consumed >= 1 generated name and was compared under >= 3 counter values and >= 5 hash seedings",
     min_nontrivial=20,
     assumptions=["RandomState seeds cannot be chosen: every HashMap instance and every process draws new keys, the evidence reports how many compilations were compared", "targets slower than 1.5 s (quick) / 20 s (thorough) per compilation are skipped"],
